@@ -12,7 +12,7 @@ import traceback
 
 ROOT = os.path.dirname(os.path.dirname(os.path.abspath(__file__)))
 NATIVE_BUILDABLE = {'Packet', 'Payload'}
-STRUCTURAL = ('pre@callsite', 'frame', 'assert', 'cut', 'inv-init', 'inv-keep', 'unexpected-exception', 'variant',
+STRUCTURAL = ('pre@callsite', 'frame', 'assert', 'loop-complete', 'cut', 'inv-init', 'inv-keep', 'unexpected-exception', 'variant',
               'raises', 'no-raise')
 
 
@@ -295,9 +295,17 @@ def run_property(prop, tier='quick', seed=0, jobs=12):
                 key = '%s#%s:%s' % (r['func'], r['kind'], r['label'])
                 base = baseline()
                 modsha = module_sha(r['func'])
-                if key in base.get('discharged', ()) and \
-                        base.get('module_sha', {}).get(module_of(r['func'])) not in (None, modsha):
+                changed = base.get('module_sha', {}).get(module_of(r['func'])) not in (None, modsha)
+                if key in base.get('discharged', ()) and changed:
                     r['undischarged'] = True
+                    violations.append(r)
+                elif changed and r.get('goal') == 'False' and key not in base.get('discharged', ()) \
+                        and module_of(r['func']) in base.get('module_sha', {}):
+                    # "this path must not exist" (an exception the contract does not allow, an early
+                    # loop exit, a write to a shared constant ...) on a path the unchanged tree did
+                    # not have: the change created it and the solver cannot show it infeasible
+                    r['undischarged'] = True
+                    r['new_path'] = True
                     violations.append(r)
                 else:
                     undecided.append((r['id'], 'solver: unknown'))
